@@ -813,7 +813,7 @@ impl Gen {
                     };
                     let n = numel(&od);
                     let vals = (0..n).map(|_| self.dyadic(0, 4, 4.0)).collect();
-                    return vec![Ev::Bwd { dims: od, vals }];
+                    return vec![Ev::Bwd { dims: od, vals, target_slot: if self.rng.chance(25, 100) { Some(self.fresh_slot()) } else { None } }];
                 }
                 match self.batch_for(sim) {
                     Some((dims, vals)) => {
@@ -824,12 +824,24 @@ impl Gen {
                 }
             }
             _ => {
+                // sometimes the model is dropped after backward and a new one (same layers) does the update
+                if self.rng.chance(5, 100) {
+                    return vec![Ev::ModelClose, Ev::ModelOpen];
+                }
+                // sometimes a second target for the same output
+                if !sim.train_eval_pending && self.rng.chance(8, 100) {
+                    if let Some(od) = sim.train_out_dims.clone() {
+                        let n = numel(&od);
+                        let vals = (0..n).map(|_| self.dyadic(0, 4, 4.0)).collect();
+                        return vec![Ev::Bwd { dims: od, vals, target_slot: None }];
+                    }
+                }
                 // after an evaluation forward: often a further backward (gradients accumulated over two batches)
                 if sim.train_eval_pending && self.rng.chance(1, 2) {
                     if let Some(od) = sim.train_out_dims.clone() {
                         let n = numel(&od);
                         let vals = (0..n).map(|_| self.dyadic(0, 4, 4.0)).collect();
-                        return vec![Ev::Bwd { dims: od, vals }];
+                        return vec![Ev::Bwd { dims: od, vals, target_slot: if self.rng.chance(25, 100) { Some(self.fresh_slot()) } else { None } }];
                     }
                 }
                 // sometimes an evaluation forward between backward and update
